@@ -114,7 +114,7 @@ PROPS["C10"] = {"jobs": lambda: enc_jobs(["h_enc_used", "h_enc_model"]), "assump
 
 
 # ------------------------------------------------------------------ C03 validators vs accessors
-C03_HDR = {1: 16, 2: 16, 3: 8, 4: 6, 5: 16, 6: 24, 7: 36}
+C03_HDR = {1: 16, 2: 16, 3: 8, 4: 6, 5: 16, 6: 26, 7: 36}
 C03_NAME = {1: "CAN", 2: "CAN-FD", 3: "LIN", 4: "Ethernet", 5: "analog", 6: "capture-module status", 7: "interface status"}
 C03_PT = {1: (1, 1), 2: (1, 2), 3: (1, 3), 4: (1, 8), 5: (1, 7), 6: (3, 1), 7: (3, 2)}  # (message type, payload type byte)
 
@@ -147,8 +147,9 @@ PROPS["C03"] = {"jobs": c03_jobs, "assumptions": COMMON_ASSUME + [
 
 
 # ------------------------------------------------------------------ decoder, single call (C02 family i)
-def dec_unwindset(n):
-    k = max((n - 8) // 16, 0) + 2
+def dec_unwindset(n, k=None):
+    if k is None:
+        k = max((n - 8) // 16, 0) + 2
     return {("Decoder6decode", None): k, ("_M_realloc_insert", None): k, ("_Hashtable", None): 4, ("_M_release", None): 3}
 
 
@@ -172,3 +173,41 @@ PROPS["C02"] = {"jobs": c02_jobs, "assumptions": COMMON_ASSUME + [
 PROPS["DBG"] = {"jobs": lambda: [Job("dec.cpp", "h_dec_fresh", defs={"N": 24, "VER": 1, "NOTAKE": 1}, unwind=100, unwindset=dec_unwindset(24), in_max=60, mem_gb=6),
    Job("dec.cpp", "h_dec_fresh", defs={"N": 32, "VER": 1, "NOTAKE": 1}, unwind=100, unwindset=dec_unwindset(32), in_max=80, mem_gb=6),
    Job("dec.cpp", "h_dec_fresh", defs={"N": 32, "VER": 1, "NOTAKE": 1}, unwind=100, unwindset=dec_unwindset(32), in_max=80, mem_gb=6, mem=False)], "assumptions": [], "level": "debug"}
+
+
+# ------------------------------------------------------------------ C04 wire fidelity
+def c04_shape(lens, padz=0, trunc=0, mtype=-1, ptype=-1, ver=1):
+    d = {"KM": len(lens), "PADZ": padz, "TRUNC": trunc, "MTYPE": mtype, "PTYPE": ptype, "VER": ver}
+    for i, l in enumerate(lens):
+        d["ML%d" % i] = l
+    return d
+
+
+def c04_jobs():
+    quick = [c04_shape([8]), c04_shape([16]), c04_shape([24], mtype=1), c04_shape([0]), c04_shape([36], mtype=3, ptype=1), c04_shape([40], mtype=3, ptype=2), c04_shape([38], mtype=3, ptype=1),
+             c04_shape([8], padz=4), c04_shape([8], padz=16), c04_shape([8], trunc=1), c04_shape([8, 8], mtype=1, ptype=1), c04_shape([8, 8], mtype=1, ptype=1, trunc=1),
+             c04_shape([8, 8], mtype=1, ptype=0xFE, padz=16), c04_shape([4, 0, 4], mtype=1, ptype=0xFE), c04_shape([], padz=16), c04_shape([20], ver=0xFF)]
+    thorough = [c04_shape([l], mtype=mt) for l in range(0, 49) for mt in (-1,)] + \
+               [c04_shape([16], trunc=t) for t in range(1, 33)] + [c04_shape([16], padz=z) for z in range(1, 25)] + \
+               [c04_shape([a, b], mtype=mt, ptype=pt, trunc=t) for (a, b) in ((8, 8), (16, 24), (0, 8), (24, 6)) for mt, pt in ((1, 1), (1, 3), (1, 8), (3, 0xFE), (1, -1)) for t in (0, 1, 9)] + \
+               [c04_shape([a, b, c], mtype=1, ptype=pt) for (a, b, c) in ((8, 8, 8), (16, 0, 8), (4, 20, 6)) for pt in (1, 2, 3, 8, 7, 0xFE)]
+    jobs = []
+    seen = set()
+    for tier, shapes in (("quick", quick), ("thorough", thorough)):
+        for d in shapes:
+            key = tuple(sorted(d.items()))
+            if key in seen:
+                continue
+            seen.add(key)
+            n = 8 + sum(16 + d.get("ML%d" % i, 0) for i in range(d["KM"])) + d["PADZ"]
+            jobs.append(Job("dec.cpp", "h_dec_wire", defs=d, unwind=4 * n + 40, unwindset=dec_unwindset(n, d["KM"] + 2 + (1 if d["PADZ"] >= 16 else 0)), tier=tier, in_max=n + 8, mem_gb=6,
+                            sym="every header and payload byte (device, stream, counter, timestamps, ids, flags except seg/error bits, payload type where PTYPE=-1, "
+                                "message type where MTYPE=-1, all inner length fields)", outside="more than 3 messages per frame, payloads > 48 bytes"))
+    return jobs
+
+
+PROPS["C04"] = {"jobs": c04_jobs, "assumptions": COMMON_ASSUME + [
+    "declared message lengths, message count, padding/truncation amounts and the version byte are concrete shape parameters",
+    "history quantifier: this check covers a fresh decoder; independence from earlier history is C17/C18's step lemma (an unsegmented message only erases its endpoint's entry)",
+    "validity oracle is written independently in harness/dec.cpp expectValid; cases the property leaves open (CAN error position without flags, Ethernet tx-port-down/truncated, interface status > 2) are not asserted either way"],
+    "level": "bounded symbolic model checking of decode against an independent big-endian reader and structure rules"}
